@@ -974,14 +974,14 @@ Qed.
 (* ------------------------------------------------------------------ HEAD = reserving variant when PADRs do not overlap *)
 Definition no_overlap (o : op) : Prop := match o with PBEGIN _ _ | PCOMMIT _ => False | _ => True end.
 
-Lemma step_head_eq e s o : pend s = [] -> no_overlap o -> step Head e s o = step HeadReserve e s o.
+Lemma step_unreserved_eq e s o : pend s = [] -> no_overlap o -> step Unreserved e s o = step ReserveOnly e s o.
 Proof.
   intros Hp Ho.
-  assert (Hu : forall k, id_used Head s k = id_used HeadReserve s k)
+  assert (Hu : forall k, id_used Unreserved s k = id_used ReserveOnly s k)
     by (intros k; unfold id_used; rewrite Hp; reflexivity).
-  assert (Ha : allocate Head s = allocate HeadReserve s).
-  { unfold allocate. change (norm_next Head (next s)) with (norm_next HeadReserve (next s)).
-    generalize alloc_fuel (norm_next HeadReserve (next s)). intros f n0. generalize n0 at 2 4.
+  assert (Ha : allocate Unreserved s = allocate ReserveOnly s).
+  { unfold allocate. change (norm_next Unreserved (next s)) with (norm_next ReserveOnly (next s)).
+    generalize alloc_fuel (norm_next ReserveOnly (next s)). intros f n0. generalize n0 at 2 4.
     induction f as [|f IH]; intros nxt; [reflexivity|]. rewrite !alloc_loop_unfold, Hu.
     destruct (negb _); [reflexivity|]. destruct (N.eqb _ _); [reflexivity | apply IH]. }
   destruct o as [t|t p|t p|u|t sid|t sid|t sid a|sid|sid t a|n]; try contradiction.
@@ -1007,35 +1007,35 @@ Proof.
   - destruct (N.ltb n 65536); inversion Hs; subst; auto.
 Qed.
 
-Lemma run_head_eq e : forall ops s, pend s = [] -> Forall no_overlap ops -> run Head e s ops = run HeadReserve e s ops.
+Lemma run_unreserved_eq e : forall ops s, pend s = [] -> Forall no_overlap ops -> run Unreserved e s ops = run ReserveOnly e s ops.
 Proof.
   induction ops as [|o r IH]; intros s Hp Hall; [reflexivity|]. apply Forall_cons in Hall as [Ho Hall]. simpl.
-  rewrite (step_head_eq e s o Hp Ho). destruct (step HeadReserve e s o) as [[s1 x]|] eqn:Es; [|reflexivity].
+  rewrite (step_unreserved_eq e s o Hp Ho). destruct (step ReserveOnly e s o) as [[s1 x]|] eqn:Es; [|reflexivity].
   rewrite IH; auto. eapply step_pend_nil; eauto.
 Qed.
 
-Lemma reserving_HeadReserve : reserving HeadReserve. Proof. split; reflexivity. Qed.
+Lemma reserving_HeadReserve : reserving ReserveOnly. Proof. split; reflexivity. Qed.
 Lemma reserving_Repaired : reserving Repaired. Proof. split; reflexivity. Qed.
 Lemma owning_Repaired : owning Repaired. Proof. split; [reflexivity | apply reserving_Repaired]. Qed.
-Lemma owning_HeadReserve : owning HeadReserve. Proof. split; [reflexivity | apply reserving_HeadReserve]. Qed.
+Lemma owning_HeadReserve : owning ReserveOnly. Proof. split; [reflexivity | apply reserving_HeadReserve]. Qed.
 
 (* /repo HEAD, histories in which no two PADRs overlap between allocation and indexing: distinct non-zero ids *)
-Lemma sid_distinct_nonzero_head e ops s outs x y : Forall no_overlap ops ->
-  run Head e st0 ops = Some (s, outs) -> alive s x -> alive s y ->
+Lemma sid_distinct_nonzero_unreserved e ops s outs x y : Forall no_overlap ops ->
+  run Unreserved e st0 ops = Some (s, outs) -> alive s x -> alive s y ->
   0 < s_sid x < 65536 /\ (s_sid x = s_sid y -> x = y).
 Proof.
-  intros Hall Hr. rewrite run_head_eq in Hr; auto. eapply sid_distinct_nonzero; [apply reserving_HeadReserve | exact Hr].
+  intros Hall Hr. rewrite run_unreserved_eq in Hr; auto. eapply sid_distinct_nonzero; [apply reserving_HeadReserve | exact Hr].
 Qed.
 
 (* /repo HEAD: isolation on the two primary indexes (the lookup paths of PADT and session packets) *)
-Lemma isolation_head e s o s' r t : pend s = [] -> no_overlap o -> Inv s -> sender o = Some t ->
-  step Head e s o = Some (s', r) ->
+Lemma isolation_unreserved e s o s' r t : pend s = [] -> no_overlap o -> Inv s -> sender o = Some t ->
+  step Unreserved e s o = Some (s', r) ->
   (forall k x, by_sid s !! k = Some x -> s_tup x <> t -> by_sid s' !! k = Some x) /\
   (forall t', t' <> t -> by_tup s' !! t' = by_tup s !! t') /\
   (forall k x, by_sid s' !! k = Some x -> by_sid s !! k = Some x \/ s_tup x = t) /\
   (forall u, r = OTerm u \/ r = OReach u -> exists x, live s x /\ s_uid x = u /\ s_tup x = t).
 Proof.
-  intros Hp Ho HI Hsnd Hs. rewrite step_head_eq in Hs; auto.
+  intros Hp Ho HI Hsnd Hs. rewrite step_unreserved_eq in Hs; auto.
   destruct (isolation_core _ _ _ _ _ _ _ owning_HeadReserve HI Hsnd Hs) as (I1 & I2 & I3 & _ & I5). auto.
 Qed.
 
@@ -1284,8 +1284,8 @@ Qed.
    B's usernameIndex entry is gone *)
 Definition bob : bytes := [98; 111; 98].
 Lemma attr_remove_refuted : exists e ops s outs xB s' r,
-  run Head e st0 ops = Some (s, outs) /\ by_attr s !! bob = Some xB /\ s_tup xB = tB /\ tA <> tB /\
-  step Head e s (PADT tA 8) = Some (s', r) /\ by_attr s' !! bob = None /\ by_sid s' !! 7 = Some xB.
+  run Unreserved e st0 ops = Some (s, outs) /\ by_attr s !! bob = Some xB /\ s_tup xB = tB /\ tA <> tB /\
+  step Unreserved e s (PADT tA 8) = Some (s', r) /\ by_attr s' !! bob = None /\ by_sid s' !! 7 = Some xB.
 Proof.
   exists env0, [RESTORE 7 tB bob; padr_of tA; SETATTR tA 8 bob]. do 5 eexists.
   split; [vm_compute; reflexivity|]. split; [vm_compute; reflexivity|]. split; [reflexivity|].
@@ -1308,3 +1308,74 @@ Example interleaving_nonvacuous :
   | None => False
   end.
 Proof. vm_compute. split; reflexivity. Qed.
+
+(* ------------------------------------------------------------------ c.sessionKey is injective *)
+Definition undec (l : list N) : N := fold_left (fun a c => a * 10 + (c - 48)) l 0.
+Definition nrange (k : nat) : list N := map N.of_nat (seq 0 k).
+
+Lemma nrange_In n k : (N.to_nat n < k)%nat -> In n (nrange k).
+Proof. intros Hn. apply in_map_iff. exists (N.to_nat n). split; [apply N2Nat.id | apply in_seq; lia]. Qed.
+
+Definition dec_ok (n : N) : bool :=
+  N.eqb (undec (dec n)) n && forallb (fun c => N.leb 48 c && N.leb c 57) (dec n).
+
+(* genuinely finite: every uint16 value is checked by computation *)
+Lemma dec_ok_all : forallb dec_ok (nrange (N.to_nat 65536)) = true.
+Proof. vm_compute. reflexivity. Qed.
+
+Lemma dec_spec n : n < 65536 -> undec (dec n) = n /\ (forall c, In c (dec n) -> 48 <= c <= 57).
+Proof.
+  intros Hn. pose proof dec_ok_all as Hall. rewrite forallb_forall in Hall.
+  assert (Hlt : (N.to_nat n < N.to_nat 65536)%nat) by lia.
+  specialize (Hall n (nrange_In _ _ Hlt)). unfold dec_ok in Hall. apply andb_true_iff in Hall as [H1 H2].
+  split; [apply N.eqb_eq; exact H1|]. intros c Hc. rewrite forallb_forall in H2. specialize (H2 c Hc). lia.
+Qed.
+
+Lemma hexd_inj a b : a < 16 -> b < 16 -> hexd a = hexd b -> a = b.
+Proof. unfold hexd. intros Ha Hb. destruct (N.ltb_spec a 10), (N.ltb_spec b 10); lia. Qed.
+
+Lemma hex2_inj a b : a < 256 -> b < 256 -> hex2 a = hex2 b -> a = b.
+Proof.
+  intros Ha Hb He. unfold hex2 in He. injection He as H1 H2.
+  apply hexd_inj in H1; [|lia|lia]. apply hexd_inj in H2; [|lia|lia]. lia.
+Qed.
+
+Lemma split_at_sep {A} (c : A) : forall l1 l2 r1 r2, ~ In c l1 -> ~ In c l2 ->
+  l1 ++ c :: r1 = l2 ++ c :: r2 -> l1 = l2 /\ r1 = r2.
+Proof.
+  induction l1 as [|x l1 IH]; intros [|y l2] r1 r2 H1 H2 He; simpl in *.
+  - inversion He; auto.
+  - inversion He; subst. exfalso. apply H2. left; reflexivity.
+  - inversion He; subst. exfalso. apply H1. left; reflexivity.
+  - inversion He; subst. destruct (IH l2 r1 r2) as [-> ->]; auto.
+Qed.
+
+Definition wf_key_tuple (t : tuple) : Prop :=
+  let '(m, sv, cv) := t in length m = 6%nat /\ Forall (fun b => b < 256) m /\ sv < 65536 /\ cv < 65536.
+
+Lemma session_key_injective t1 t2 : wf_key_tuple t1 -> wf_key_tuple t2 -> session_key t1 = session_key t2 -> t1 = t2.
+Proof.
+  destruct t1 as [[m1 s1] c1], t2 as [[m2 s2] c2]. intros (L1 & B1 & S1 & C1) (L2 & B2 & S2 & C2) He.
+  destruct m1 as [|a1 [|a2 [|a3 [|a4 [|a5 [|a6 [|? ?]]]]]]]; try discriminate L1.
+  destruct m2 as [|b1 [|b2 [|b3 [|b4 [|b5 [|b6 [|? ?]]]]]]]; try discriminate L2.
+  cbn [session_key mac_string hex2 app] in He.
+  injection He as E1 E2 E3 E4 E5 E6 E7 E8 E9 E10 E11 E12 Hrest.
+  repeat match goal with H : Forall _ (_ :: _) |- _ => apply Forall_cons in H as [? H] end.
+  assert (a1 = b1) by (apply hex2_inj; auto; unfold hex2; congruence).
+  assert (a2 = b2) by (apply hex2_inj; auto; unfold hex2; congruence).
+  assert (a3 = b3) by (apply hex2_inj; auto; unfold hex2; congruence).
+  assert (a4 = b4) by (apply hex2_inj; auto; unfold hex2; congruence).
+  assert (a5 = b5) by (apply hex2_inj; auto; unfold hex2; congruence).
+  assert (a6 = b6) by (apply hex2_inj; auto; unfold hex2; congruence).
+  subst. destruct (dec_spec s1 S1) as [U1 D1]. destruct (dec_spec s2 S2) as [U2 D2].
+  destruct (dec_spec c1 C1) as [V1 _]. destruct (dec_spec c2 C2) as [V2 _].
+  apply split_at_sep in Hrest as [Hs Hc].
+  - assert (s1 = s2) by congruence. assert (c1 = c2) by congruence. subst. reflexivity.
+  - intros Hin. specialize (D1 _ Hin). lia.
+  - intros Hin. specialize (D2 _ Hin). lia.
+Qed.
+
+(* the class of renderings that drop a separator or a width is NOT injective, e.g. svlan and cvlan concatenated *)
+Example key_without_separator_collides :
+  dec 12 ++ dec 3 = dec 1 ++ dec 23 /\ session_key (fst (fst tA), 12, 3) <> session_key (fst (fst tA), 1, 23).
+Proof. split; [reflexivity | vm_compute; discriminate]. Qed.
